@@ -463,10 +463,10 @@ pub fn inputs_c17(r: &mut Rng, n: usize, _tier: &str, out: &mut dyn Write) {
             }
             10 => writeln!(out, "from_unix_dur {}", dstr(e)).unwrap(),
             _ => {
-                let kind = *r.pick(&["mjd_tai", "mjd_utc", "jde_tai", "jde_utc", "unix_s", "unix_ms"]);
+                let kind = *r.pick(&["mjd_tai", "mjd_utc", "jde_tai", "jde_utc", "jde_tdb", "jde_et", "unix_s", "unix_ms"]);
                 let x = match kind {
                     "mjd_tai" | "mjd_utc" => f_days(r),
-                    "jde_tai" | "jde_utc" => f_days(r) + 2_400_000.5,
+                    "jde_tai" | "jde_utc" | "jde_tdb" | "jde_et" => f_days(r) + 2_400_000.5,
                     "unix_s" => r.range_i64(-4_000_000_000_000, 4_000_000_000_000) as f64 / 1000.0,
                     _ => r.range_i64(-4_000_000_000_000, 4_000_000_000_000) as f64,
                 };
@@ -978,6 +978,8 @@ pub fn exec(op: &str, a: &[&str]) -> Option<String> {
                 "mjd_utc" => Epoch::from_mjd_utc(x).to_mjd_utc_days(),
                 "jde_tai" => Epoch::from_jde_tai(x).to_jde_tai_days(),
                 "jde_utc" => Epoch::from_jde_utc(x).to_jde_utc_days(),
+                "jde_tdb" => Epoch::from_jde_tdb(x).to_jde_tdb_days(),
+                "jde_et" => Epoch::from_jde_et(x).to_jde_et_days(),
                 "unix_s" => Epoch::from_unix_seconds(x).to_unix_seconds(),
                 "unix_ms" => Epoch::from_unix_milliseconds(x).to_unix_milliseconds(),
                 _ => return None,
